@@ -52,6 +52,11 @@ def main():
         sh(f"git worktree remove --force {evalrepo}", cwd=REPO)
         return 2
     caught = {}
+    # a private copy of the Lean project (48 MB with its build): the translator rewrites Tdgl/Generated from the
+    # patched tree, so evaluations running side by side must not share it
+    leandir = f"/tmp/evallean_{a.name}_{os.getpid()}"
+    sh(f"cp -r {ROOT}/lean {leandir}")
+    os.environ["VERIF_LEAN_DIR"] = leandir
     try:
         for c in checks:
             t0 = time.time()
@@ -70,6 +75,7 @@ def main():
             print(c, "rc=", rc, "VIOLATION" if rc == 1 else "", caught[c].get("first_replay", ""))
     finally:
         sh(f"git worktree remove --force {evalrepo}", cwd=REPO)
+        sh(f"rm -rf {leandir}")
     res["checks"] = caught
     res["caught_by"] = [c for c, v in caught.items() if v["rc"] == 1]
     res["tier"] = a.tier
